@@ -5,6 +5,7 @@ package main
 // (`OP <dump> SPRINT <hex>` | ERR), and applies the property's oracles to the implementation.
 
 import (
+	"bytes"
 	"encoding/json"
 	"errors"
 	"fmt"
@@ -515,6 +516,36 @@ func runParse(c *Ctx, std *fdCapture) {
 					got := parseWith(func() (mpath.Operation, error) { return mpath.ParseReadSeeker(cr) })
 					if got.Line != line {
 						v := mk("chunking", "ParseReadSeeker through a "+mode+" reader differs from ParseString on the same bytes")
+						v.Extra = map[string]string{"string": trunc(line, 200), "reader": trunc(got.Line, 200)}
+						v.Key = "chunking:" + mode
+						c.addViolation(v)
+					}
+				}
+				// the library's own readers, already read (to their end, half way) before they are handed over, and one reader parsed twice:
+				// the parse starts at the first byte whatever was read before
+				for _, mode := range []string{"strings.Reader-at-its-end", "strings.Reader-half-way", "bytes.Reader-at-its-end", "same-reader-a-second-time"} {
+					var rs io.ReadSeeker
+					switch mode {
+					case "strings.Reader-at-its-end":
+						sr := strings.NewReader(q)
+						sr.Seek(0, io.SeekEnd)
+						rs = sr
+					case "strings.Reader-half-way":
+						sr := strings.NewReader(q)
+						sr.Seek(int64(len(q)/2), io.SeekStart)
+						rs = sr
+					case "bytes.Reader-at-its-end":
+						br := bytes.NewReader([]byte(q))
+						br.Seek(0, io.SeekEnd)
+						rs = br
+					default:
+						sr := strings.NewReader(q)
+						parseWith(func() (mpath.Operation, error) { return mpath.ParseReadSeeker(sr) })
+						rs = sr
+					}
+					got := parseWith(func() (mpath.Operation, error) { return mpath.ParseReadSeeker(rs) })
+					if got.Line != line {
+						v := mk("chunking", "ParseReadSeeker on a "+mode+" differs from ParseString on the same bytes")
 						v.Extra = map[string]string{"string": trunc(line, 200), "reader": trunc(got.Line, 200)}
 						v.Key = "chunking:" + mode
 						c.addViolation(v)
